@@ -79,6 +79,21 @@ func floorDiv(a, b int) int {
 	return q
 }
 
+// viaFactory returns f (or its reverse) as a closure of ONE function literal:
+// all comparators made here share a code pointer and differ only in what they
+// captured, like the asc/desc comparators real programs get from one factory.
+// Whoever tells comparators apart by reflect.ValueOf(f).Pointer() sees one.
+//
+//go:noinline
+func viaFactory[T any](f func(a, b T) int, flip bool) func(a, b T) int {
+	return func(a, b T) int {
+		if flip {
+			return f(b, a)
+		}
+		return f(a, b)
+	}
+}
+
 var intCmps = []NamedCmp[int]{
 	{"natural", func(a, b int) int { return cmp.Compare(a, b) }},
 	{"reversed", func(a, b int) int { return cmp.Compare(b, a) }},
@@ -232,6 +247,68 @@ func PDom() *Dom[*PS] {
 	d.Probe = []*PS{{"zz"}, {""}, {"a"}}
 	d.Wide = func(r *core.R) *PS { return &PS{Name: string(rune('a' + r.Intn(26)))} }
 	return d
+}
+
+// PK / *PK: pointer KEYS. Identity is the pointer; the order is by N. nil is
+// never a key, a probe or an argument, so a library that passes the zero value
+// of the key type to the comparator is caught where the comparator is handed
+// over (outsideDomain in kv.go). The comparators below tolerate nil, because
+// the monitors also look at what the library RETURNS.
+type PK struct{ N int }
+
+func (p *PK) String() string {
+	if p == nil {
+		return "PK(nil)"
+	}
+	return fmt.Sprintf("PK(%d)", p.N)
+}
+
+func pkN(p *PK) int {
+	if p == nil {
+		return math.MinInt
+	}
+	return p.N
+}
+
+// PKDom returns the domain and its ascending key function (the same index
+// always yields the same pointer).
+func PKDom(n int) (*Dom[*PK], func(int) *PK) {
+	d := &Dom[*PK]{Name: "pointer-key", Fmt: func(v *PK) string { return v.String() }}
+	nat := func(a, b *PK) int { return cmp.Compare(pkN(a), pkN(b)) }
+	d.Cmps = []NamedCmp[*PK]{
+		{"natural", nat},
+		{"reversed", func(a, b *PK) int { return nat(b, a) }},
+		{"coarse12", func(a, b *PK) int { return cmp.Compare(floorDiv(pkN(a), 12), floorDiv(pkN(b), 12)) }},
+		{"natural-unnormalised", func(a, b *PK) int { return scale(nat(a, b), uint64(pkN(a))^uint64(pkN(b))) }},
+	}
+	pool := map[int]*PK{}
+	at := func(v int) *PK {
+		if p, ok := pool[v]; ok {
+			return p
+		}
+		p := &PK{N: v}
+		pool[v] = p
+		return p
+	}
+	for i := 0; i < n; i++ {
+		d.Alpha = append(d.Alpha, at(i*6))
+		d.Probe = append(d.Probe, at(i*6+3))
+	}
+	d.Probe = append(d.Probe, at(-3), at(-100), at(n*6+50), at(math.MaxInt))
+	d.Wide = func(r *core.R) *PK { return at(r.Intn(1<<20) * 6) }
+	return d, func(i int) *PK { return at(i * 6) }
+}
+
+// Z is a zero-size element type: every value is the same value, unsafe.Sizeof
+// is 0, and all Z elements of a slice may share one address. Code that divides
+// by the element size, or tells elements apart by address, meets it here.
+type Z struct{}
+
+func ZDom() *Dom[Z] {
+	zc := func(a, b Z) int { return 0 }
+	return &Dom[Z]{Name: "zero-size-struct", Alpha: []Z{{}}, Probe: []Z{{}},
+		Cmps: []NamedCmp[Z]{{"all-equal", zc}, {"all-equal", zc}, {"all-equal", zc}, {"all-equal", zc}},
+		Wide: func(r *core.R) Z { return Z{} }, Fmt: func(Z) string { return "{}" }}
 }
 
 // PTwinDom: pointer elements among which several DISTINCT pointers have deeply
